@@ -111,3 +111,30 @@ pub fn desugar_self_reads(d: &Design) -> (Design, usize) {
     }
     (d, count)
 }
+
+/// `~s` with `s` a whole packed-struct variable rewritten to the equivalent
+/// `~{s}` (second metamorphic attribution: the analyzer types `~s` as 1 bit).
+pub fn rewrite_struct_not(d: &Design) -> (Design, usize) {
+    let mut d = d.clone();
+    let mut count = 0;
+    for m in d.modules.iter_mut() {
+        let whole: Vec<Option<usize>> =
+            m.sigs.iter().map(|s| if matches!(s.shape, Shape::Struct(_)) { Some(s.shape.bits()) } else { None }).collect();
+        crate::shrink::visit_module(
+            m,
+            &mut |e| {
+                if let Expr::Not(a) = e
+                    && let Expr::Ref(p) = a.as_ref()
+                    && whole[p.sig] == Some(p.w)
+                    && p.lo == 0
+                {
+                    let r = Expr::Ref(*p);
+                    *e = Expr::Not(Box::new(Expr::Concat(vec![r])));
+                    count += 1;
+                }
+            },
+            &mut |_| {},
+        );
+    }
+    (d, count)
+}
